@@ -16,6 +16,10 @@ import (
 	"runtime"
 	"strings"
 
+	"google.golang.org/protobuf/proto"
+
+	"github.com/tink-crypto/tink-go/v2/internal/verifharness/hlib"
+
 	"github.com/tink-crypto/tink-go/v2/aead"
 	"github.com/tink-crypto/tink-go/v2/aead/aesgcm"
 	"github.com/tink-crypto/tink-go/v2/aead/xaesgcm"
@@ -370,31 +374,201 @@ func (it *item) mkDirect() maker {
 
 // ---------------------------------------------------------------- multi-key keysets
 
-// multiHandle puts all keys of one class (cheap ones) into one keyset; the first is primary.
-func multiHandle(its []*item, class string) (priv, pub *keyset.Handle, members []*item, err error) {
+var multiClasses = []string{"aead", "daead", "mac", "prf", "sig", "hyb", "saead", "jwtmac", "jwtsig", "kd"}
+
+// multiKeyset puts all cheap keys of one class into one keyset; the primary is in the middle;
+// optionally the last key is disabled.
+func multiKeyset(its []*item, class string, disableLast bool) (*tinkpb.Keyset, []*item) {
 	ks := &tinkpb.Keyset{}
+	var members []*item
 	for _, it := range its {
-		if it.pk.Class != class || it.cost > 1 {
+		if it.pk.Class != class || it.cost > 1 || strings.HasPrefix(it.pk.Name, "KMSEnvelope") {
 			continue
 		}
-		if strings.HasPrefix(it.pk.Name, "KMSEnvelope") {
-			continue
+		if class == "hyb" && strings.HasPrefix(it.pk.Name, "ECIES-X25519") {
+			continue // no primitive exists for this key type
 		}
-		ks.Key = append(ks.Key, it.ks.Key[0])
+		k := proto.Clone(it.ks.Key[0]).(*tinkpb.Keyset_Key)
+		ks.Key = append(ks.Key, k)
 		members = append(members, it)
 	}
 	if len(members) < 2 {
-		return nil, nil, nil, errors.New("fewer than two members")
+		return nil, nil
 	}
-	ks.PrimaryKeyId = members[0].id
-	h, err, pan := kslib.ReadMem(ks)
-	if err != nil || pan != "" {
-		return nil, nil, nil, fmt.Errorf("%v %s", err, pan)
+	ks.PrimaryKeyId = members[len(members)/2].id
+	if disableLast {
+		ks.Key[len(ks.Key)-1].Status = tinkpb.KeyStatusType_DISABLED
 	}
-	if members[0].pub != nil {
-		if pub, err = h.Public(); err != nil {
-			return nil, nil, nil, err
+	return ks, members
+}
+
+func (e *engine) multiJobs(its []*item) (jobs []job) {
+	for _, class := range multiClasses {
+		class := class
+		ks, members := multiKeyset(its, class, false)
+		if ks == nil {
+			continue
 		}
+		id := fmt.Sprintf("multi:%s:%dkeys", class, len(members))
+		h, err, pan := kslib.ReadMem(ks)
+		if err != nil || pan != "" {
+			e.o.Violate("multi-key keyset %s could not be read (harness): %v %s", id, err, pan)
+			continue
+		}
+		var pub *keyset.Handle
+		if members[0].pub != nil {
+			if pub, err = h.Public(); err != nil {
+				e.o.Violate("multi-key keyset %s: Public: %v", id, err)
+				continue
+			}
+		}
+		mk := func() (*prims, error) { return factoryPrims(class, h, pub) }
+		extra := func(t *target, r *hlib.Rng, p *prims) error {
+			val, err := jwtValidator()
+			if err != nil {
+				return err
+			}
+			for _, m := range members {
+				m := m
+				pm, err := factoryPrims(class, m.h, m.pubh)
+				if err != nil {
+					return fmt.Errorf("member %s: %v", m.pk.Name, err)
+				}
+				pt := t.input(r, 40+r.Intn(100))
+				ad := t.input(r, r.Intn(20))
+				switch class {
+				case "aead":
+					ct, err := pm.aead.Encrypt(pt, ad)
+					if err != nil {
+						return err
+					}
+					t.add("dec-member", ct, canon(pt), func(*hlib.Rng) string {
+						got, err := p.aead.Decrypt(ct, ad)
+						if err != nil {
+							return "err:" + errStr(err)
+						}
+						return canon(got)
+					})
+				case "daead":
+					ct, err := pm.daead.EncryptDeterministically(pt, ad)
+					if err != nil {
+						return err
+					}
+					t.add("dec-member", ct, canon(pt), func(*hlib.Rng) string {
+						got, err := p.daead.DecryptDeterministically(ct, ad)
+						if err != nil {
+							return "err:" + errStr(err)
+						}
+						return canon(got)
+					})
+				case "mac":
+					tag, err := pm.mac.ComputeMAC(pt)
+					if err != nil {
+						return err
+					}
+					t.add("verify-member", tag, "ok", func(*hlib.Rng) string {
+						if err := p.mac.VerifyMAC(tag, pt); err != nil {
+							return "rejected:" + errStr(err)
+						}
+						return "ok"
+					})
+				case "prf":
+					out, err := pm.prfs.ComputePrimaryPRF(pt, 16)
+					if err != nil {
+						return err
+					}
+					t.add("prf-member", pt, canon(out), func(*hlib.Rng) string {
+						f, ok := p.prfs.PRFs[m.id]
+						if !ok {
+							return "no-entry"
+						}
+						got, err := f.ComputePRF(pt, 16)
+						if err != nil {
+							return "err:" + errStr(err)
+						}
+						return canon(got)
+					})
+				case "sig":
+					sig, err := pm.signer.Sign(pt)
+					if err != nil {
+						return err
+					}
+					t.add("verify-member", sig, "ok", func(*hlib.Rng) string {
+						if err := p.verifier.Verify(sig, pt); err != nil {
+							return "rejected:" + errStr(err)
+						}
+						return "ok"
+					})
+				case "hyb":
+					ct, err := pm.henc.Encrypt(pt, ad)
+					if err != nil {
+						return err
+					}
+					t.add("dec-member", ct, canon(pt), func(*hlib.Rng) string {
+						got, err := p.hdec.Decrypt(ct, ad)
+						if err != nil {
+							return "err:" + errStr(err)
+						}
+						return canon(got)
+					})
+				case "saead":
+					long := t.input(r, 9000)
+					ct, err := streamEncrypt(pm.saead, long, ad, nil)
+					if err != nil {
+						return err
+					}
+					t.add("stream-dec-member", ct, canon(long), func(gr *hlib.Rng) string {
+						got, err := streamDecrypt(p.saead, ct, ad, gr)
+						if err != nil {
+							return "err:" + errStr(err)
+						}
+						return canon(got)
+					})
+				case "jwtmac":
+					raws, _, err := rawJWTs(r, 2)
+					if err != nil {
+						return err
+					}
+					c, err := pm.jmac.ComputeMACAndEncode(raws[1])
+					if err != nil {
+						return err
+					}
+					v0, err := pm.jmac.VerifyMACAndDecode(c, val)
+					if err != nil {
+						return err
+					}
+					t.add("jwt-verify-member", []byte(c), verifiedCanon(v0), func(*hlib.Rng) string {
+						v, err := p.jmac.VerifyMACAndDecode(c, val)
+						if err != nil {
+							return "rejected:" + errStr(err)
+						}
+						return verifiedCanon(v)
+					})
+				case "jwtsig":
+					raws, _, err := rawJWTs(r, 2)
+					if err != nil {
+						return err
+					}
+					c, err := pm.jsigner.SignAndEncode(raws[1])
+					if err != nil {
+						return err
+					}
+					v0, err := pm.jverifier.VerifyAndDecode(c, val)
+					if err != nil {
+						return err
+					}
+					t.add("jwt-verify-member", []byte(c), verifiedCanon(v0), func(*hlib.Rng) string {
+						v, err := p.jverifier.VerifyAndDecode(c, val)
+						if err != nil {
+							return "rejected:" + errStr(err)
+						}
+						return verifiedCanon(v)
+					})
+				}
+			}
+			return nil
+		}
+		jobs = append(jobs, e.targetJob(id, class, 1, false, mk, extra, false))
 	}
-	return h, pub, members, nil
+	return
 }
